@@ -394,6 +394,9 @@ func init() {
 			if !c.Mine(idx) {
 				continue
 			}
+			if sr.Bail() {
+				break
+			}
 			rg := eng.NewRng(c.CaseSeed(idx))
 			cs := genC18(rg, c.Thorough())
 			c.Progress(idx, cs)
